@@ -18,6 +18,8 @@ Race case (JSON):
   prep_tasks   list of durations of track preparation tasks (scripted processor)
   queue_size   None | int      downsample  None | int
   delay_overrides  None | {message type name: index into DELAYS}  fixed delay for every message of that type
+  preempt_add  None | [k, ...]  the worker's actor thread ships samples while its executor thread builds every k-th Sample inside Sampler.add()
+  host_alias   None | [machine index per entry of hosts] (a load driver host listed twice)
   preempt      None | list of indexes into PREEMPT, consumed one per pre-emption point (Future.done() in a handler), cycled
   quiet        bool
   fault        None | {...}  (see checks/c09)
@@ -130,7 +132,9 @@ def race_config(case, tmp_root="/tmp/verif-sim-race"):
     if n_hosts == 1:
         load_hosts = ["localhost"]
     else:
-        load_hosts = [f"10.0.0.{i + 1}" for i in range(n_hosts)]
+        # host_alias: entry i of the list names the machine alias[i] (the same load driver host may be listed more than once)
+        alias = case.get("host_alias") or list(range(n_hosts))
+        load_hosts = [f"10.0.0.{alias[i] + 1}" for i in range(n_hosts)]
     cfg.add(A, "driver", "load_driver_hosts", load_hosts)
     cfg.add(A, "track", "challenge.name", "sim-challenge")
     cfg.add(A, "track", "test.mode.enabled", bool(case.get("test_mode")))
@@ -164,7 +168,7 @@ def prep_task(task_id, fail=False):
     fault = w.faults.get("prep-task")
     if fault and fault["task_id"] == task_id and "fired_at" not in fault:
         fault["fired_at"] = w.clock.now
-        raise RuntimeError("sim: track preparation task failed")
+        raise world.fault_exception(fault, "sim: track preparation task failed")
 
 
 class SimTrackProcessor:
@@ -265,8 +269,9 @@ def run_race(case, inject=None, after_complete_grace=True, collect_metrics=False
     rt = actors.SimRuntime(loop, clock, delays=delays, wake_lateness=lambda rec: wake_cycle.next())
     coordinator_ip = "127.0.0.1" if len(load_hosts) == 1 else load_hosts[0]
     rt.add_host("coordinator", {"coordinator": True, "ip": coordinator_ip})
-    for ip in load_hosts[1:]:
-        rt.add_host(ip, {"coordinator": False, "ip": ip})
+    for ip in dict.fromkeys(load_hosts[1:]):
+        if ip != coordinator_ip:
+            rt.add_host(ip, {"coordinator": False, "ip": ip})
     worker_count = [0]
 
     def on_actor_created(rec):
@@ -338,6 +343,23 @@ def run_race(case, inject=None, after_complete_grace=True, collect_metrics=False
         (esrally.log, "post_configure_actor_logging", noop),
         (esrally.utils.console, "progress", lambda *a, **kw: res.progress),
     ]
+    if case.get("preempt_add"):
+        # second pre-emption point: the executor thread is inside Sampler.add() - it has looked up the queue's put method and is about to
+        # build the Sample - when the actor thread ships samples (what Worker does on every wake-up, whose phase is arbitrary)
+        real_init = driver.Sample.__init__
+        every = sorted(set(int(k) for k in case["preempt_add"]))
+        built = {}
+
+        def init_under_preemption(self, *a, **kw):
+            proc = kernel.current_proc.get()
+            built[proc] = built.get(proc, 0) + 1
+            rec = rt.actors.get(proc)
+            if rec is not None and rec.alive and isinstance(rec.instance, driver.Worker) and any(built[proc] % k == 0 for k in every):
+                rt.stats["preemptions_in_sampler_add"] = rt.stats.get("preemptions_in_sampler_add", 0) + 1
+                rec.instance.send_samples()
+            real_init(self, *a, **kw)
+
+        patches.append((driver.Sample, "__init__", init_under_preemption))
     res.tp_calls = []
     if collect_metrics:
         real_calculate = driver.ThroughputCalculator.calculate
@@ -520,8 +542,9 @@ def run_full_race(case, fault=None):
     rt = actors.SimRuntime(loop, clock, delays=delays, wake_lateness=lambda rec: wake_cycle.next())
     coordinator_ip = "127.0.0.1" if len(load_hosts) == 1 else load_hosts[0]
     rt.add_host("coordinator", {"coordinator": True, "ip": coordinator_ip})
-    for ip in load_hosts[1:]:
-        rt.add_host(ip, {"coordinator": False, "ip": ip})
+    for ip in dict.fromkeys(load_hosts[1:]):
+        if ip != coordinator_ip:
+            rt.add_host(ip, {"coordinator": False, "ip": ip})
     workers = []
 
     def on_actor_created(rec):
